@@ -48,6 +48,8 @@ type interpreter struct {
 	depth              int
 	initDone           map[*ssa.Package]bool
 	writtenGlobals     map[*ssa.Global]bool
+	panicSeen          interface{}
+	panicSite          string
 }
 
 func mustDeref(t types.Type) types.Type {
@@ -76,6 +78,7 @@ type frame struct {
 	panicking        bool
 	panic            interface{}
 	phitemps         []value // temporaries for parallel phi assignment
+	cur              ssa.Instruction
 }
 
 func (fr *frame) get(key ssa.Value) value {
@@ -600,6 +603,7 @@ func runFrame(fr *frame) {
 		}
 		r := recover()
 		r = classifyPanic(fr, r)
+		fr.i.notePanicSite(fr, r)
 		fr.panicking = true
 		fr.panic = r
 		if fr.i.mode&EnableTracing != 0 {
@@ -619,6 +623,7 @@ func runFrame(fr *frame) {
 					fmt.Fprintln(os.Stderr, "\t", instr)
 				}
 			}
+			fr.cur = instr
 			if visitInstr(fr, instr) == kReturn {
 				return
 			}
@@ -678,4 +683,32 @@ func doRecover(caller *frame) value {
 		}
 	}
 	return iface{}
+}
+
+// notePanicSite remembers where a panic was first seen (innermost frame) and
+// the chain of callers, for reporting.
+func (i *interpreter) notePanicSite(fr *frame, r interface{}) {
+	if i.panicSeen == r {
+		return
+	}
+	switch r.(type) {
+	case runtimeError, targetPanic:
+	default:
+		return
+	}
+	i.panicSeen = r
+	var sb []byte
+	n := 0
+	for f := fr; f != nil && n < 8; f = f.caller {
+		pos := "?"
+		if f.cur != nil {
+			pos = shortPos(i.prog.Fset, f.cur.Pos())
+		}
+		if n > 0 {
+			sb = append(sb, " <- "...)
+		}
+		sb = append(sb, (f.fn.String() + "@" + pos)...)
+		n++
+	}
+	i.panicSite = string(sb)
 }
